@@ -462,6 +462,40 @@ TlsDec(c, b) ==
   ELSE IF c = "client_hello" /\ ~PskLast(r.v[2][6]) THEN Fail("value", "psk-not-last")
   ELSE [r EXCEPT !.v = TlsCanon(c, r.v)]
 
+(* ------------------------------------------------------------------------ *)
+(* Worked examples from the RFCs, and the strictness of the decoders on       *)
+(* hand-written inputs (evaluated once, when TLC starts)                      *)
+(* ------------------------------------------------------------------------ *)
+\* RFC 9000 A.1
+ASSUME VarintAt(<<194, 25, 124, 94, 255, 20, 232, 140>>, 1, 8) = Ok(<<2, 25, 124, 94, 255, 20, 232, 140>>, 9)
+ASSUME VarintAt(<<157, 127, 62, 125>>, 1, 4) = Ok(<<29, 127, 62, 125>>, 5)
+ASSUME VarintAt(<<123, 189>>, 1, 2) = Ok(<<59, 189>>, 3) /\ VarintEnc(<<59, 189>>) = <<123, 189>>
+ASSUME VarintAt(<<37>>, 1, 1) = Ok(<<37>>, 2) /\ VarintAt(<<64, 37>>, 1, 2) = Ok(<<37>>, 3)
+ASSUME VarintEnc(<<2, 25, 124, 94, 255, 20, 232, 140>>) = <<194, 25, 124, 94, 255, 20, 232, 140>>
+\* RFC 9000 17.2 table 5, RFC 9369 3.2: first byte of long headers (low four bits zero)
+ASSUME <<LongFirst(V1, "initial", 0), LongFirst(V1, "0rtt", 0), LongFirst(V1, "handshake", 0), LongFirst(V1, "retry", 0)>>
+         = <<192, 208, 224, 240>>
+ASSUME <<LongFirst(V2, "initial", 0), LongFirst(V2, "0rtt", 0), LongFirst(V2, "handshake", 0), LongFirst(V2, "retry", 0)>>
+         = <<208, 224, 240, 192>>
+\* RFC 9000 19.3.1: largest 10, first range 2 (8..10), gap 1, length 1: next range ends at 8 - 1 - 2 = 5 (4..5)
+ASSUME AckDec(<<10, 0, 1, 2, 1, 1>>) = Ok([ranges |-> <<<<<<4>>, <<5>>>>, <<<<8>>, <<10>>>>>>, delay |-> <<>>], 7)
+ASSUME ~AckDec(<<1, 0, 0, 2>>).ok /\ ~AckDec(<<9, 0, 1, 0, 8, 0>>).ok         \* below packet number 0
+\* transport parameters: a declared length that is not the length of the value
+ASSUME TPDec(<<1, 1, 5>>) = Ok(<<<<1, <<5>>>>>>, 4)
+ASSUME ~TPDec(<<1, 2, 5, 0>>).ok /\ ~TPDec(<<1, 1, 64, 5>>).ok /\ ~TPDec(<<12, 1, 0>>).ok /\ ~TPDec(<<1, 2, 5>>).ok
+\* EncryptedExtensions with ALPN "h3": exact, the extension one byte short of its list, and
+\* the extension swallowing the early_data extension that follows it
+ASSUME TlsDec("encrypted_extensions", <<8, 0, 0, 11, 0, 9, 0, 16, 0, 5, 0, 3, 2, 104, 51>>)
+         = Ok(<<0, <<<< <<16, <<<<104, 51>>>>>> >>>>>>, 16)
+ASSUME LET r == TlsDec("encrypted_extensions", <<8, 0, 0, 11, 0, 9, 0, 16, 0, 4, 0, 3, 2, 104, 51>>) IN
+         ~r.ok /\ r.why = "length" /\ r.at = "ext16"
+ASSUME LET r == TlsDec("encrypted_extensions", <<8, 0, 0, 15, 0, 13, 0, 16, 0, 9, 0, 3, 2, 104, 51, 0, 42, 0, 0>>) IN
+         ~r.ok /\ r.why = "length" /\ r.at = "ext16"
+\* a vector whose length is not a multiple of its item size; a block with bytes left over
+ASSUME ~TlsDec("certificate_verify", <<15, 0, 0, 5, 8, 4, 0, 2, 1>>).ok
+ASSUME ~TlsDec("certificate_request", <<13, 0, 0, 10, 0, 0, 7, 0, 13, 0, 3, 0, 1, 8>>).ok
+ASSUME TlsDec("finished", <<20, 0, 0, 2, 7, 9>>) = Ok(<<0, <<7, 9>>>>, 7) /\ ~TlsDec("finished", <<20, 0, 0, 3, 7, 9>>).ok
+
 (* ======================================================================== *)
 (* (M) exhaustive evaluation on small domains; cases printed for (R)          *)
 (* ======================================================================== *)
